@@ -911,6 +911,17 @@ def op_sort_legcharge(P):
             else:
                 sort.append(bool(r < 0.65))
         kw = {'sort': sort, 'bunch': [bool(rng.random() < 0.5) for _ in range(a.ndim)]}
+    if mode == 'lists' and 'c01' in P.monitors and a.ndim >= 1 and a.shape[0] > 1 and rng.random() < 0.15:
+        # documented argument form: an entry of `sort` may be "a 1D array perm for a given permutation to apply to a leg"
+        kw2 = {'sort': [np.asarray(rng.permutation(a.arr.legs[0].block_number), dtype=np.intp)] + [False] * (a.ndim - 1), 'bunch': False}
+        try:
+            a.arr.sort_legcharge(**kw2)
+            P.count('sort_legcharge.perm_entry_accepted')
+        except ValueError as e:
+            if 'truth value of an array' in str(e):
+                P.violation('sort_legcharge:perm-entry-in-sort-list:raises-ValueError', 'sort=[perm, False, ...] raises: %s' % str(e)[:120])
+            else:
+                raise
     P.log.append(['sort_legcharge', {'a': P.slots.index(a), 'kw': repr(kw)}])
     perm, r = a.arr.sort_legcharge(**kw)
     if len(perm) != a.ndim:
